@@ -146,6 +146,27 @@ func derivesFrom(v ssa.Value, target func(ssa.Value) bool) bool {
 					// stores to the cell itself and, for local structs, to its fields
 					return walk(y, d+1)
 				case *ssa.FieldAddr:
+					// field of a local struct literal: only what was stored into that very field
+					if base := localStructAlloc(y.X); base != nil && base.Referrers() != nil {
+						found := false
+						for _, ref := range *base.Referrers() {
+							fa2, ok := ref.(*ssa.FieldAddr)
+							if !ok || fa2.Field != y.Field || fa2.Referrers() == nil {
+								continue
+							}
+							for _, r2 := range *fa2.Referrers() {
+								if st, ok := r2.(*ssa.Store); ok && st.Addr == ssa.Value(fa2) {
+									found = true
+									if walk(st.Val, d+1) {
+										return true
+									}
+								}
+							}
+						}
+						if found {
+							return false
+						}
+					}
 					return walk(y.X, d+1) || walk(y, d+1)
 				case *ssa.IndexAddr:
 					return walk(y.X, d+1)
@@ -215,6 +236,35 @@ func baseOfFieldLoad(v ssa.Value) ssa.Value {
 		}
 	case *ssa.Field:
 		return x.X
+	}
+	return nil
+}
+
+// localStructAlloc: v is a struct allocated in this function (directly, or loaded from the cell it was stored in).
+func localStructAlloc(v ssa.Value) *ssa.Alloc {
+	switch x := v.(type) {
+	case *ssa.Alloc:
+		if _, ok := x.Type().(*types.Pointer).Elem().Underlying().(*types.Struct); ok {
+			return x
+		}
+	case *ssa.UnOp:
+		if cell, ok := x.X.(*ssa.Alloc); ok && cell.Referrers() != nil {
+			var found *ssa.Alloc
+			n := 0
+			for _, ref := range *cell.Referrers() {
+				if st, ok := ref.(*ssa.Store); ok && st.Addr == ssa.Value(cell) {
+					n++
+					if a, ok := st.Val.(*ssa.Alloc); ok {
+						found = a
+					}
+				}
+			}
+			if n == 1 && found != nil {
+				if _, ok := found.Type().(*types.Pointer).Elem().Underlying().(*types.Struct); ok {
+					return found
+				}
+			}
+		}
 	}
 	return nil
 }
